@@ -1721,6 +1721,8 @@ dt_dtdiff(dt_dtdurtyp_t tgttyp, struct dt_dt_s d1, struct dt_dt_s d2)
 {
 	struct dt_dtdur_s res = {(dt_dtdurtyp_t)DT_DURUNK};
 	int64_t dt = 0;
+	/* sub-second part of the time portion difference */
+	int64_t ns = 0;
 
 	if ((dt_durtyp_t)tgttyp < DT_NDURTYP || d1.typ != d2.typ) {
 		/* date durations and mixed operands work on the date and
@@ -1737,7 +1739,11 @@ dt_dtdiff(dt_dtdurtyp_t tgttyp, struct dt_dt_s d1, struct dt_dt_s d2)
 		/* do the time portion difference right away */
 		switch (tgttyp) {
 		default:
-			dt = dt_tdiff_s(d1.t, d2.t);
+			/* whole seconds towards zero, the rest goes into NS
+			 * and is looked at where days get borrowed */
+			dt = dt_tdiff_ns(d1.t, d2.t);
+			ns = dt % (int64_t)NANOS_PER_SEC;
+			dt /= (int64_t)NANOS_PER_SEC;
 			break;
 		case DT_DURNANO:
 			dt = dt_tdiff_ns(d1.t, d2.t);
@@ -1752,7 +1758,9 @@ dt_dtdiff(dt_dtdurtyp_t tgttyp, struct dt_dt_s d1, struct dt_dt_s d2)
 		res.dv = dt >= 0 ? dt : -dt;
 	} else if (tgttyp && (dt_durtyp_t)tgttyp < DT_NDURTYP) {
 		res.durtyp = tgttyp;
-		res.d = dt_ddiff((dt_durtyp_t)tgttyp, d1.d, d2.d, dt);
+		res.d = dt_ddiff((dt_durtyp_t)tgttyp, d1.d, d2.d, dt ?: ns);
+		/* from here on in nanoseconds so a fraction borrows as well */
+		dt = dt * (int64_t)NANOS_PER_SEC + ns;
 		if (UNLIKELY(tgttyp == DT_DURBD && dt)) {
 			/* business days aren't 86400 seconds long, count the
 			 * whole ones from the earlier operand and express the
@@ -1765,12 +1773,13 @@ dt_dtdiff(dt_dtdurtyp_t tgttyp, struct dt_dt_s d1, struct dt_dt_s d2)
 			int64_t rest;
 
 			dt = !neg ? dt : -dt;
-			rest = dt + (int64_t)SECS_PER_DAY *
+			rest = dt + (int64_t)SECS_PER_DAY * NANOS_PER_SEC *
 				dt_ddiff(DT_DURD, dt_dadd_b(e, nb), l, 0).dv;
 			if (rest < 0) {
-				rest = dt + (int64_t)SECS_PER_DAY *
+				rest = dt + (int64_t)SECS_PER_DAY * NANOS_PER_SEC *
 					dt_ddiff(DT_DURD, dt_dadd_b(e, --nb), l, 0).dv;
 			}
+			rest /= (int64_t)NANOS_PER_SEC;
 			res.d.dv = !neg ? nb : -nb;
 			res.t.sdur = !neg ? rest : -rest;
 			res.t.nsdur = 0;
@@ -1778,10 +1787,10 @@ dt_dtdiff(dt_dtdurtyp_t tgttyp, struct dt_dt_s d1, struct dt_dt_s d2)
 		}
 		dt = !res.neg ? dt : -dt;
 		dt = !res.d.fix ? dt
-			: dt > 0 ? dt - SECS_PER_DAY
-			: dt < 0 ? dt + SECS_PER_DAY
+			: dt > 0 ? dt - (int64_t)SECS_PER_DAY * NANOS_PER_SEC
+			: dt < 0 ? dt + (int64_t)SECS_PER_DAY * NANOS_PER_SEC
 			: 0;
-		res.t.sdur = dt;
+		res.t.sdur = dt / (int64_t)NANOS_PER_SEC;
 		res.t.nsdur = 0;
 	} else if ((dt_durtyp_t)tgttyp >= DT_NDURTYP) {
 		int64_t sxdur;
@@ -1796,6 +1805,8 @@ dt_dtdiff(dt_dtdurtyp_t tgttyp, struct dt_dt_s d1, struct dt_dt_s d2)
 			}
 			/* since target type is SEXY do the conversion here */
 			sxdur = dt + (int64_t)res.d.dv * SECS_PER_DAY;
+			/* a fraction against the grain takes a second off */
+			sxdur -= (sxdur > 0 && ns < 0) - (sxdur < 0 && ns > 0);
 		} else {
 			/* oh we're in the sexy domain already,
 			 * note, we can't diff ymdhms packs */
